@@ -726,7 +726,7 @@ def clone_cases(tier):
     fams = ('CTD', 'UCTD')
     for kind in ('rodded', 'lowfi'):
         for fam in fams:
-            for g in (('none', 'CDD') if tier == 'quick' else ('none', 'K', 'REH', 'CDD')):
+            for g in (('none', 'K', 'CDD') if tier == 'quick' else ('none', 'K', 'REH', 'CDD')):
                 for rings in ((3,) if tier == 'quick' else (2, 3, 4)):
                     out.append({'probe': 'clones', 'kind': kind, 'ff': fam, 'fs': fam, 'mix': fam, 'grid': g,
                                 'rings': rings, 'pd': 1.2, 'hd': 30.0, 'wire': True, 'clr': 'tight'})
